@@ -28,6 +28,12 @@ VERIF = os.path.dirname(os.path.dirname(os.path.abspath(__file__)))
 NCPU = 16
 
 
+def evidence_dir():
+    # mutant / scratch runs redirect their evidence so that the committed files are only ever
+    # written by runs against /repo itself
+    return os.environ.get("NIXPY_VERIF_EVIDENCE_DIR") or os.path.join(VERIF, "evidence")
+
+
 def canon(obj):
     return json.dumps(obj, sort_keys=True, ensure_ascii=True, default=_default)
 
@@ -218,8 +224,8 @@ def write_evidence(prop_id, tier, seed, level, tot, rule, assumptions, wall,
         "coverage": cov, "assumptions": list(assumptions),
         "wall_s": round(wall, 2), "violations": int(nviol),
     }
-    os.makedirs(os.path.join(VERIF, "evidence"), exist_ok=True)
-    path = os.path.join(VERIF, "evidence", "%s.json" % prop_id)
+    os.makedirs(evidence_dir(), exist_ok=True)
+    path = os.path.join(evidence_dir(), "%s.json" % prop_id)
     tmp = path + ".tmp"
     with open(tmp, "w") as fh:
         json.dump(ev, fh, indent=1, sort_keys=True)
@@ -378,7 +384,7 @@ def main(argv=None):
                                                        "original case kept unshrunk")
             rec = {"property": prop_id, "key": k, "seed": seed, "tier": tier,
                    "case": small, "detail": sdetail, "occurrences": unknown[k]["n"]}
-            rdir = os.path.join(VERIF, "evidence", "replays")
+            rdir = os.path.join(evidence_dir(), "replays")
             os.makedirs(rdir, exist_ok=True)
             rpath = os.path.join(rdir, "%s-%s.json" % (
                 prop_id, hashlib.sha1(k.encode()).hexdigest()[:10]))
